@@ -69,6 +69,8 @@ fn write_clients(tera: &Tera) {
 }
 
 fn main() {
+    println!("cargo:rustc-check-cfg=cfg(rsdns_verif)");
+
     let tera = match Tera::new("templates/*.rs") {
         Ok(t) => t,
         Err(e) => {
